@@ -321,6 +321,22 @@ pub fn bump_by(map: &mut BTreeMap<String, u64>, key: &str, n: u64) {
     *map.entry(key.to_string()).or_insert(0) += n;
 }
 
+/// Writes per-run event-log hashes for the determinism self-test (VERIF_HASH_DUMP=<file>).
+pub fn dump_hashes(engine: &str, hashes: &[u64]) {
+    if let Ok(path) = std::env::var("VERIF_HASH_DUMP") {
+        use std::io::Write as _;
+        let mut f = std::fs::OpenOptions::new().create(true).append(true).open(path).expect("cannot open hash dump");
+        for (i, h) in hashes.iter().enumerate() {
+            writeln!(f, "{engine} {i} {h:016x}").unwrap();
+        }
+    }
+}
+
+/// VERIF_RUNS=<n> overrides the number of runs of a batch (used by the self-tests).
+pub fn runs_override(default: u64) -> u64 {
+    std::env::var("VERIF_RUNS").ok().and_then(|s| s.parse().ok()).unwrap_or(default)
+}
+
 pub fn tier_from_args(args: &[String]) -> String {
     if args.iter().any(|a| a == "thorough") {
         "thorough".into()
